@@ -120,7 +120,7 @@ func (p *Prog) JS() string {
 		sb.WriteString("bs[\"bad\"] = 0/0;\nreturn bs;\n")
 	case "cyclic":
 		// bindings that contain themselves
-		sb.WriteString("var r = {\"count\": 1}; r.me = {\"again\": r};\nreturn r;\n")
+		sb.WriteString("var r = {\"count\": 1}; r.me = [r];\nreturn r;\n") // same shape of cycle as the cyclic emission: the texts are equal
 	default:
 		sb.WriteString("return bs;\n")
 	}
